@@ -90,6 +90,7 @@ def gen_pat(rng, npred=3, nconst=3):
 
 def queries(rng, lo, hi, n, npred=3):
     ops = []
+    lo = max(lo, MIN64 + 1)       # lo - 1 below stays an int64
     for _ in range(n):
         r = rng.random()
         if r < 0.3:
@@ -114,7 +115,7 @@ def gen_history(rng, big):
     shape = rng.choice(["random", "ascending", "descending", "equalstart", "nested", "touching", "one-atom-long"])
     lo, hi = 0, rng.choice([4, 8, 20])
     if rng.random() < 0.1:
-        base = rng.choice([MAX64 - 60, MIN64 + 2, -10])   # never start = MinInt64 (N13 trigger)
+        base = rng.choice([MAX64 - 60, MIN64, MIN64, MIN64 + 2, -10])   # starts at MinInt64 included (N13 fixed)
         lo, hi = base, base + 20
     n = rng.randint(1, 40 if big else 14)
     limit = rng.choice([-1, -1, 1000, 1000, 1, 2, 3, 5])
@@ -130,7 +131,8 @@ def gen_history(rng, big):
             s = hi + 14 - (k % 14)
             iv = [ts(s), ts(s + rng.randint(0, 3))]
         elif shape == "equalstart":
-            iv = [ts(lo + 1), ts(lo + 1 + rng.randint(0, 12))] if rng.random() < 0.85 else gen_iv(rng, lo, hi)
+            es = lo if lo == MIN64 else lo + 1      # at the int64 floor: all start at MinInt64
+            iv = [ts(es), ts(es + rng.randint(0, 12))] if rng.random() < 0.85 else gen_iv(rng, lo, hi)
         elif shape == "nested":
             d = rng.randint(0, 10)
             iv = [ts(lo + 10 - d), ts(lo + 10 + d)]
@@ -284,15 +286,6 @@ def coalesce_oracle(case, outs):
 def probes(ck):
     """Known findings: replay each listed witness; print KNOWN-FINDING if it still fails."""
     for k in known_for("C13"):
-        if k["id"] == "N13":
-            case = {"limit": -1, "ops": [
-                {"op": "add", "atom": {"p": 1, "args": [0]}, "iv": [ts(MIN64), ts(5)]},
-                {"op": "add", "atom": {"p": 1, "args": [0]}, "iv": [ts(MIN64), ts(9)]},
-                {"op": "coalesce", "p": 1, "t": 1},
-                {"op": "all", "pat": {"p": 1, "args": [None]}}]}
-            out = ck.run_go("c13", [case])[0]
-            if "out" in out and len(out["out"][3]) == 2:
-                ck.known("N13 coalescing leaves two overlapping intervals that both start at MinInt64 separate (Start-1 wraps)")
         if k["id"] == "F8":
             out = ck.run_go("c13_f8", [{}])[0]
             if out.get("out") is True:
@@ -375,7 +368,7 @@ def run(ck):
     return ck.finish(cov, assumptions=[
         "model hand-written (coq/Temporal/ITree.v, TStore.v); tied to factstore/interval_tree.go and temporal.go by differential replay only",
         "atoms carry small integer constants; Atom.Hash() keying abstracted (collisions are finding F8)",
-        "timestamps within int64; starts > MinInt64 in the main stream (finding N13)"])
+        "timestamps within int64 (starts at MinInt64 and ends at MaxInt64 included)"])
 
 
 def replay(ck, path):
@@ -398,10 +391,11 @@ META = {
     "text": "Machine-checked theorems (coq/Props/C13.v) about a Gallina model of the AVL interval tree with cached "
             "subtree maximum, the per-atom temporal store and coalescing: insertion keeps every interval and the search "
             "invariant through every rotation, pruned point/range queries equal filter over the stored pairs for every "
-            "insertion history and every instant/range, duplicate search is exact, coalescing preserves the set of instants. "
+            "insertion history and every instant/range, duplicate search is exact, coalescing preserves the set of instants and "
+            "leaves finite intervals neither overlapping nor adjacent, for all valid intervals with int64 starts (MinInt64 included). "
             "The model is tied to factstore/interval_tree.go and temporal.go on every run by replaying generated operation "
             "histories (exhaustive on small timelines in the thorough tier) on the Go store and on the model inside Coq.",
     "note": "Trusted: Coq kernel + vm_compute; the hand-written model is tied to the code only by differential replay "
             "(sampled; exhaustive for <=2-3 intervals on tiny timelines); Atom.Hash() keying abstracted (finding F8 probe); "
-            "MinInt64 start excluded (finding N13 probe); AVL balance is not claimed.",
+            "after fix N13 (coalescing at MinInt64; the pre-fix test is refuted in Props/C13.v); AVL balance is not claimed.",
 }
